@@ -236,6 +236,17 @@ def dense_cases(ctx):
     out += [(wave, tol) for tol in (0.001, 0.01, 0.1)]
     line = tuple((0.25 * k, 0.125 * k) for k in range(300)) + ((80.0, 3.0),)
     out += [(line, tol) for tol in (0.01, 0.5)]
+    # near-repeats far from the origin: consecutive vertices closer than 1e-9 of their
+    # magnitude (equal for math.isclose) yet four tolerances apart, creeping sideways off a
+    # chord - along either axis, as tuples; all coordinates exact
+    for base in (float(1 << 20), float(1 << 30)):
+        step = base / (1 << 31)
+        for count in (2, 4, 8, 40):
+            creep = [(base + 8, base + k * step) for k in range(count + 1)]
+            path = [(base, base)] + creep + [(base + 16, base + count * step)]
+            out.append((tuple(path), step / 4))
+            out.append((tuple((y, x) for x, y in path), step / 4))
+            out.append((tuple(reversed(path)), step / 4))
     return out
 
 
@@ -316,7 +327,9 @@ def run(ctx):
         "rule": f"all vertex lists of length 0..{max_len} over the 3x3 lattice x tolerances "
                 f"{tols}; lists of length 7-9 on a line with one off-line point; all 4-point "
                 "(and 5-point) tuples for the predicate comparison; long oblique chords (1e3..1e7 "
-                "units, offsets to 2e6) with vertices 0.25..4 tolerances off the chord; "
+                "units, offsets to 2e6) with vertices 0.25..4 tolerances off the chord; oversampled "
+                "curves (runs of 20..200 vertices); near-repeated vertices 2^20 / 2^30 units out "
+                "creeping off a chord; "
                 "non-trivial = simplification "
                 "deleted at least one vertex; all (list, tolerance) pairs distinct",
         "samples": core.rotate(part.samples, ctx.seed, 4) or
